@@ -24,7 +24,7 @@ def run(tier, t0):
     dctx = div.Ctx(prog, an)
     results = [idx.idx(prog, scope, 150, an), idx.cap_callers(prog, scope, 5, cg), term.eof(prog, scope, 20),
                term.rec(prog, cg, [common.UTIL_MAIN], member_scope=lambda f: f.file.startswith(('fileio/', 'common/', 'disasm/', 'main/naken_util')) or f.file in ('core/UtilContext.cpp', 'core/Linker.cpp', 'core/imports_obj.cpp', 'core/imports_ar.cpp')), div.div(prog, scope, 40, ctx=dctx), null.null_a(prog, scope, 20),
-               tbl.ttbl(prog), disp.disp(prog)]
+               tbl.ttbl(prog), disp.disp(prog), idx.ptr_into_array(prog, scope, an)]
     return report.finish('C17', tier, results, EXPLANATION,
                          ['the invariants listed for not-decided subscripts were read from the code and replayed under ASan '
                           'during triage'], common.TRUSTED, t0)
